@@ -53,8 +53,10 @@ def build_variant(d, rng):
     if d[0] != "G":
         return build(d)
     _, name, ws, attrs, kids = d
-    kb = [build_variant(k, rng) for k in kids]
-    mode = rng.choice(["ctor", "nested", "append", "extend", "insert", "mixed"])
+    # plain-text children whose text is that of a number are sometimes the number itself
+    kb = [trees.mk_child_text(k[1]) if k[0] == "T" else build_variant(k, rng) for k in kids]
+    mode = rng.choice(["ctor", "nested", "append", "extend", "insert", "mixed", "iadd", "children_append", "with",
+                       "append_pairs"])
     if mode == "ctor":
         t = Tag(name, *kb, _add_ws=ws)
     elif mode == "nested":
@@ -66,6 +68,29 @@ def build_variant(d, rng):
     elif mode == "extend":
         t = Tag(name, _add_ws=ws)
         t.extend(kb)
+    elif mode == "iadd":
+        t = Tag(name, _add_ws=ws)
+        for k in kb:
+            t.children += [k]
+    elif mode == "children_append":
+        t = Tag(name, _add_ws=ws)
+        for k in kb:
+            t.children.append(k)
+    elif mode == "append_pairs":
+        t = Tag(name, _add_ws=ws)
+        for j in range(0, len(kb), 2):
+            t.append(*kb[j:j + 2])
+    elif mode == "with":
+        import sys
+        t = Tag(name, _add_ws=ws)
+        old = sys.displayhook
+        try:
+            sys.displayhook = lambda v: None
+            with t:
+                for k in kb:
+                    sys.displayhook(k)
+        finally:
+            sys.displayhook = old
     elif mode == "insert":
         t = Tag(name, _add_ws=ws)
         for k in reversed(kb):
